@@ -31,6 +31,11 @@ def budget(tier):
     return 800 if tier == "quick" else 15000
 
 
+# payloads of realistic size as well: a tracking URL, a title as long as browsers make them (several hundred characters of stored JSON)
+LONG_URL = "https://www.example.com/" + "segment/" * 70 + "page.html?utm_source=" + "x" * 90 + "#top"
+LONG_TITLE = "GitHub - " + "a very long window title " * 24 + "- Firefox"
+
+
 def _event():
     return st.fixed_dictionaries(
         {
@@ -40,8 +45,8 @@ def _event():
                 {},
                 optional={
                     "app": st.sampled_from(["Firefox", "vim", "x"]),
-                    "title": st.sampled_from(qlang.VALS),
-                    "url": st.sampled_from(["http://www.github.com/a?b#c", "https://example.com"]),
+                    "title": st.sampled_from(qlang.VALS + [LONG_TITLE]),
+                    "url": st.sampled_from(["http://www.github.com/a?b#c", "https://example.com", LONG_URL]),
                     "status": st.sampled_from(["afk", "not-afk"]),
                 },
             ),
